@@ -2,6 +2,7 @@ package object
 
 import (
 	"fmt"
+	"math"
 	"math/bits"
 	"runtime"
 	"runtime/debug"
@@ -25,6 +26,9 @@ func SizeOk(n int) (bool, int64) {
 		return true, 0
 	}
 	free := FreeMemory()
+	if int64(n) > math.MaxInt64/ObjectSize {
+		return false, free // n * ObjectSize would overflow: certainly more than what is free.
+	}
 	return ((free >= 0) && ((int64(n) * ObjectSize) < free)), free
 }
 
